@@ -305,7 +305,12 @@ func coqBool(b bool) string {
 	return "false"
 }
 
-func coqObserved(o Outcome, log []storeCall) string {
+func coqObserved(o Outcome, log []storeCall) (out string) {
+	defer func() {
+		if r := recover(); r != nil {
+			out = "(ObsPanic " + coqStr("result cannot be rendered (corrupted number): "+fmt.Sprint(r)) + ")"
+		}
+	}()
 	switch o.Class {
 	case "ok":
 		var tm []string
